@@ -61,6 +61,7 @@ fn build_doc(rng: &mut Rng, nsteps: usize) -> (Doc, Vec<SendPlan>) {
     root.data = vec![
         DataDecl { id: "x".into(), expr: Some(Expr::Int(1)) },
         DataDecl { id: "sid".into(), expr: Some(Expr::Str("none".into())) },
+        DataDecl { id: "tgt".into(), expr: Some(Expr::Str("#_scxml_1".into())) },
     ];
     root.initial = Initial::Attr(vec!["run".into()]);
     let mut run = Node::new("run", Kind::State);
@@ -82,9 +83,16 @@ fn build_doc(rng: &mut Rng, nsteps: usize) -> (Doc, Vec<SendPlan>) {
                         _ => (None, None),
                     };
                     plans.push(SendPlan { event: event.clone(), ms, id: id.clone() });
+                    // a third of the sends address the session through a variable that is re-pointed at a
+                    // session that does not exist right after the <send>: target and data are those of the
+                    // moment of execution
+                    let via_var = rng.chance(1, 3);
+                    if via_var {
+                        t.content.push(Exec::Assign { loc: "tgt".into(), expr: Expr::Str("#_scxml_1".into()) });
+                    }
                     t.content.push(Exec::Send {
                         event,
-                        target: None,
+                        target: if via_var { Some("@var:tgt".into()) } else { None },
                         delay_ms: ms,
                         id,
                         params: vec![("v".into(), Expr::Var("x".into()))],
@@ -94,6 +102,9 @@ fn build_doc(rng: &mut Rng, nsteps: usize) -> (Doc, Vec<SendPlan>) {
                     });
                     // the data changes right after the send: delivery must carry the old value
                     t.content.push(Exec::Assign { loc: "x".into(), expr: Expr::Add(Box::new(Expr::Var("x".into())), Box::new(Expr::Int(1))) });
+                    if via_var {
+                        t.content.push(Exec::Assign { loc: "tgt".into(), expr: Expr::Str("#_scxml_99".into()) });
+                    }
                 }
                 6..=8 => {
                     if rng.chance(1, 4) {
@@ -213,6 +224,24 @@ impl Property for C16Prop {
         notes.insert("jitter".into(), jitter.to_string());
         let xml = crate::gen::render(&doc);
         Scenario { kind: "S5-timers".into(), docs: vec![DocSrc { name: "timers".into(), xml, via_rfsm: rng.chance(1, 10), model: Some(doc) }], files: vec![], script, producers: vec![], knobs: Knobs { snapshots: rng.chance(1, 2), ..Default::default() }, notes }
+    }
+
+    fn shrink_docs(&self, sc: &Scenario) -> Vec<Scenario> {
+        let doc = match sc.docs.first().and_then(|d| d.model.as_ref()) {
+            Some(d) => d,
+            None => return vec![],
+        };
+        let mut out = Vec::new();
+        for cand in super::sc::shrink_doc_candidates(doc) {
+            if crate::refsm::Model::new(&cand).validate().is_err() {
+                continue;
+            }
+            let mut c = sc.clone();
+            c.docs[0].xml = crate::gen::render(&cand);
+            c.docs[0].model = Some(cand);
+            out.push(c);
+        }
+        out
     }
 
     fn check(&self, v: &RunView, probes: &mut Probes) -> Verdict {
